@@ -502,12 +502,24 @@ class Executor(Exec):
 
     def call_method_inline(self, recv, defcls, fnode, args, kwargs):
         fs = source.get_function(f"{source.class_table()[defcls].file}::{defcls}.{fnode.name}")
-        return self.call_closure(SClosure(fnode, Env(None, {}), fs), [recv] + list(args), kwargs)
+        decos = [d.id for d in fnode.decorator_list if isinstance(d, ast.Name)]
+        if "staticmethod" in decos:
+            pre = []
+        elif "classmethod" in decos:
+            pre = [ClassRef(defcls)]
+        else:
+            pre = [recv]
+        return self.call_closure(SClosure(fnode, Env(None, {}), fs), pre + list(args), kwargs)
 
     def call_closure(self, clo, args, kwargs):
         if self.call_depth > MAX_INLINE_DEPTH:
             raise OutOfSubset("inline depth")
         node = clo.node
+        u = self._uses(f"fn:{getattr(node, 'name', '')}")
+        if u == "skip":
+            return None
+        if u is not None and u != "inline":
+            return self.apply_contract(u, list(args), kwargs)
         env = Env(clo.env, {})
         a = node.args
         params = [p.arg for p in a.posonlyargs + a.args]
